@@ -1,5 +1,6 @@
 import RsMatterVerif.Model.Codec.BleRecovery
 import RsMatterVerif.Model.Codec.Mdns
+import RsMatterVerif.Model.Codec.MdnsService
 import Driver.C17More
 import Driver.Util
 /-!
@@ -101,6 +102,60 @@ def mdnsLegal (h : Mdns.HostCfg) (s : Mdns.Svc) : Bool :=
   legalName (Mdns.hostFqdn h) && legalName (Mdns.serviceFqdn s) && s.subtypes.all (fun sub => legalName (Mdns.subtypeFqdn s sub)) &&
   s.txt.all (fun (k, v) => k.length + v.length + 1 ≤ 255 && !(k.contains 0x3D)) && s.port < 65536
 
+def optField (s : String) : Option Nat := if s = "-" then none else s.toNat?
+
+def strBytes (s : String) : List Nat := s.toUTF8.toList.map (·.toNat)
+
+def svcShow (r : Mdns.R Mdns.Svc) : String :=
+  match r with
+  | .ok s => s!"ok {hex s.name} {hex s.service} {hex s.protocol} {s.port} [{",".intercalate (s.subtypes.map hex)}] {kvShow s.txt}"
+  | .error e => mErr e
+
+/-- `svc` ops: what a Matter node publishes. Oracle (from the Matter mDNS TXT / subtype definitions, with Lean's own
+`toString` for decimals): a commissionable node publishes `D=<discriminator>`, `VP=<vid>+<pid>`, `CM=1|2` and the
+subtypes `_L<discriminator>`, `_S<discriminator >> 8>`, `_V<vid>`, `_CM`; an operational node the subtype `_I<fabric>` -/
+def stepSvc (op : List String) (out : String) : String :=
+  let np : Option String := if isPanic out then some "panicked or did not terminate" else none
+  let icdOf := fun (s : String) => if s = "0" then some false else if s = "1" then some true else none
+  match op with
+  | ["c", id, disc, enh, vid, pid, sai, sii, dn, pi, ph, dt, tcp, icd, port, cap] =>
+    match nats [id, disc, enh, vid, pid, ph, tcp, port, cap], unhex dn, unhex pi with
+    | some [id, disc, enh, vid, pid, ph, tcp, port, cap], some dn, some pi =>
+      if !(Mdns.validUtf8 dn && Mdns.validUtf8 pi) then verdict "badutf8" out none else
+      let dd : Mdns.DevDet := { vid, pid, sai := optField sai, sii := optField sii, deviceName := dn, pairingInstruction := pi,
+                                pairingHint := ph, deviceType := optField dt, tcp := tcp ≠ 0 }
+      let model := svcShow (Mdns.matterServiceIn (.commissionable id disc (enh ≠ 0)) dd port (icdOf icd) (min cap 4096))
+      let ora : Option String := np <|> (match words out with
+        | ["ok", _, _, _, p, subs, txt] =>
+          let has := fun (hay : String) (needle : String) => (hay.splitOn needle).length > 1
+          let kv := fun (k v : String) => s!"{hex (strBytes k)}={hex (strBytes v)}"
+          let cm := if enh ≠ 0 then "2" else "1"
+          if p ≠ toString port then some s!"port {p}"
+          else if !(has txt (kv "D" (toString disc)) && has txt (kv "VP" s!"{vid}+{pid}") && has txt (kv "CM" cm)) then
+            some s!"TXT pairs D / VP / CM missing or wrong: {txt}"
+          else if !(has subs (hex (strBytes s!"_L{disc}")) && has subs (hex (strBytes s!"_S{disc / 256 % 16}")) &&
+              has subs (hex (strBytes s!"_V{vid}")) && has subs (hex (strBytes "_CM"))) then some s!"subtypes: {subs}"
+          else none
+        | _ => if out = "err BufferTooSmall" ∧ cap < 700 then none else some s!"no service description: {out}")
+      verdict model out ora
+    | _, _, _ => "BAD args"
+  | ["o", cfid, node, sai, sii, tcp, icd, port, cap] =>
+    match nats [cfid, node, tcp, port, cap] with
+    | some [cfid, node, tcp, port, cap] =>
+      let dd : Mdns.DevDet := { vid := 0, pid := 0, sai := optField sai, sii := optField sii, deviceName := [], pairingInstruction := [],
+                                pairingHint := 0, deviceType := none, tcp := tcp ≠ 0 }
+      let model := svcShow (Mdns.matterServiceIn (.commissioned cfid node) dd port (icdOf icd) (min cap 4096))
+      let ora : Option String := np <|> (match words out with
+        | ["ok", name, _, _, p, subs, _] =>
+          if p ≠ toString port then some s!"port {p}"
+          else if name.length ≠ 66 then some s!"instance name is not <16 hex>-<16 hex>: {name}"
+          else if !(subs.startsWith "[5f49" && subs.length = 38) then some s!"subtype _I<fabric>: {subs}"
+          else none
+        | _ => if out = "err BufferTooSmall" ∧ cap < 80 then none else some s!"no service description: {out}")
+      verdict model out ora
+    | _ => "BAD args"
+  | _ => "BAD op"
+
 def stepMdns (op : List String) (out : String) : String :=
   let np : Option String := if isPanic out then some "panicked or did not terminate" else none
   match op with
@@ -182,6 +237,7 @@ def stepMdns (op : List String) (out : String) : String :=
       let ora : Option String := np <|> (if (splitFirst out).2 = "none" then none else some s!"a query was parsed into an answer: {out}")
       verdict model out ora
     | _, _ => "BAD args"
+  | "svc" :: rest => stepSvc rest out
   | _ => "BAD op"
 
 end Driver.C17Discovery
